@@ -36,8 +36,8 @@ class Engine:
         self.unsupported = []
 
     # ------------------------------------------------------------------------------------- lookups
-    def spec_for(self, qual):
-        return self.specs.get(qual)
+    def spec_for(self, qual, dyn_cls=None):
+        return specmod.lookup(self.repo, qual, dyn_cls)
 
     def allow_inline(self, fi):
         # functions without a contract are executed in place (their callers carry the obligation)
@@ -192,6 +192,8 @@ class Engine:
             if desc in ('str', 'callable'):
                 st.assume(z3.Not(run_isnone(v.term)))
             return v
+        if desc == 'rngstate':
+            return OpaqueV(fresh(name, Rng), 'rngstate')
         if desc == 'none':
             return NONE
         if desc == 'optarm':
@@ -323,8 +325,8 @@ class Engine:
     def verify(self, qual, dyn_cls=None, forced=None):
         """Generate all obligations of function `qual` (receiver class dyn_cls).  Returns (obligations, problems)."""
         fi = self.repo.funcs[qual]
-        sp = self.specs[qual]
         cls = dyn_cls or fi.cls
+        sp = self.spec_for(qual, cls)
         label = qual + ('[%s]' % cls if cls and cls != fi.cls else '')
         obligs = []
         problems = []
@@ -360,7 +362,10 @@ class Engine:
         env = {}
         params = fi.params()
         if fi.cls is not None and not fi.is_static:
-            env[params[0][0]] = self.materialise(run, 'obj:' + cls, 'self')
+            if fi.name == '__init__':
+                env[params[0][0]] = st.alloc(Obj(cls, {}), fresh=False)
+            else:
+                env[params[0][0]] = self.materialise(run, 'obj:' + cls, 'self')
             params = params[1:]
         for nm, dflt in params:
             d = sp.params.get(nm)
